@@ -69,6 +69,8 @@ var c08Templates = [][]string{
 	{"cat @H $(cat <<Z)"}, {"cat @H `cat <<Z`"}, {"cat $(cat <<Z) @H"}, {"cat @H $(cat <<Z) @H"}, {"cat @H | b $(cat <<Z; c <<Z)"},
 	// a comment between the token that lets the command continue on the next line and that newline
 	{"cat @H | # c", "b"}, {"cat @H && # c", "b"}, {"case x in a) cat @H ;; # c", "esac"}, {"cat @H | # c", "cat @H"}, {"f() # c", "{ cat @H; }"},
+	// a here-document pending at the newline that ends a for header
+	{"cat @H | for x in a", "do b; done"}, {"cat @H; for x", "do b; done"}, {"cat @H && for x in a b", "do cat @H; done"},
 }
 
 func c08Sites(t []string) int {
@@ -79,7 +81,7 @@ func c08Sites(t []string) int {
 	return n
 }
 
-var c08BodyLines = []string{"", "x", "E ", " E", "EE", "\tx", "\tE", "$v", "$(c)", "`c`", "\\$v", "a\\b", "${v}E", "$(c)E", "\\$E", "$1EF"}
+var c08BodyLines = []string{"", "x", "E ", " E", "EE", "\tx", "\tE", "$v", "$(c)", "`c`", "\\$v", "a\\b", "${v}E", "$(c)E", "\\$E", "$1EF", "#x"}
 
 type c08Delim struct {
 	src, delim string
@@ -309,7 +311,7 @@ func c08Run(w *W) {
 			for _, op := range ops {
 				for _, d := range c08Delims {
 					for _, b := range bs {
-						if !w.thorough() && len(b) == 1 && (b[0] == "EE" || b[0] == " E" || b[0] == "a\\b" || b[0] == "`c`" || b[0] == "$(c)E" || b[0] == "\\$E" || b[0] == "$1EF") {
+						if !w.thorough() && len(b) == 1 && (b[0] == "EE" || b[0] == " E" || b[0] == "a\\b" || b[0] == "`c`" || b[0] == "$(c)E" || b[0] == "\\$E" || b[0] == "$1EF" || b[0] == "#x") {
 							continue
 						}
 						if s, ok := mk(op, d, b); ok {
@@ -357,6 +359,34 @@ func c08Run(w *W) {
 			c08Explore(w, c, bound, maxExec)
 		}
 	}
+	// many here-documents: n = 4 … 12 sites on one line, on n lines of a group, and one per pipeline stage; each body
+	// names its site, so a body attached to the wrong operator shows; every schedule with ≤ 1 preemption
+	for n := 4; n <= 12; n++ {
+		if !w.Mine() || w.TimeUp() {
+			continue
+		}
+		var sites []c08Site
+		for i := 0; i < n; i++ {
+			op, d := "<<", c08Delims[i%2]
+			if i%3 == 2 {
+				op = "<<-"
+			}
+			s, _ := mk(op, d, []string{fmt.Sprintf("body%d $v", i)})
+			sites = append(sites, s)
+		}
+		var group []string
+		group = append(group, "{")
+		for i := 0; i < n; i++ {
+			group = append(group, "cat @H")
+		}
+		group = append(group, "}")
+		for ti, t := range [][]string{{"cat" + strings.Repeat(" @H", n)}, group, {"cat @H" + strings.Repeat(" | cat @H", n-1)}} {
+			c := c08Case{Template: -2 - ti, Sites: sites}
+			c.Src = c08Render(t, sites)
+			w.Count("many_site_programs", 1)
+			c08Explore(w, c, 1, maxExec)
+		}
+	}
 	// second phase: every sentence of the derivation generator that carries a here-document (lists of leaves, every
 	// compound form with here-documents in conditions and bodies, a here-document earlier on the line than a compound
 	// command, closers directly after a redirected compound), in one-line and multi-line layout, under every schedule
@@ -392,8 +422,8 @@ func init() {
 	register(&check{
 		id:    "C08",
 		level: "model_checking",
-		rule: "42 host templates with 1–3 here-document sites (simple command, both sides of a pipe, lists, every compound form, function body, compound redirection, inside $( ) and backquotes, before && / | + newline, numbered, several on one line and on different lines) × {<<, <<- with 0–3 tabs before the delimiter line} × delimiters {E, 'E', \"E\", E\\F} × bodies from the 16-line menu " +
-			"{empty, x, 'E ', ' E', EE, tab+x, tab+E, $v, $(c), `c`, \\$v, a\\b, ${v}E, $(c)E, \\$E, $1EF} (one-site: all sequences ≤ 2 lines; two sites: ≤ 1 line each; three sites: 8 variants each); every program under ALL schedules of the lexer/parser pair (one site) or all schedules with ≤ 1 preemption (more sites); second phase: every sentence of the derivation generator that carries a here-document (D0, D1, DH; thorough D2, DC) in one-line and multi-line layout under all schedules with ≤ 1 preemption, judged against the grammar model's AST",
+		rule: "45 host templates with 1–3 here-document sites (simple command, both sides of a pipe, lists, every compound form, function body, compound redirection, inside $( ) and backquotes, before && / | + newline, numbered, several on one line and on different lines) × {<<, <<- with 0–3 tabs before the delimiter line} × delimiters {E, 'E', \"E\", E\\F} × bodies from the 17-line menu " +
+			"{empty, x, 'E ', ' E', EE, tab+x, tab+E, $v, $(c), `c`, \\$v, a\\b, ${v}E, $(c)E, \\$E, $1EF, #x} (one-site: all sequences ≤ 2 lines; two sites: ≤ 1 line each; three sites: 8 variants each); every program under ALL schedules of the lexer/parser pair (one site) or all schedules with ≤ 1 preemption (more sites); second phase: every sentence of the derivation generator that carries a here-document (D0, D1, DH; thorough D2, DC) in one-line and multi-line layout under all schedules with ≤ 1 preemption, judged against the grammar model's AST",
 		assume: []string{"backslash-newline inside bodies is outside the alphabet (POSIX removes it, 'byte for byte' cannot be demanded there)", "scheduler as in C06 (e2.go)"},
 		run:    c08Run,
 		replay: func(raw json.RawMessage) error {
